@@ -24,6 +24,7 @@ import (
 	"go/ast"
 	"go/token"
 	"go/types"
+	"sort"
 	"strings"
 )
 
@@ -386,4 +387,235 @@ func (x *Exec) memFrame(ftype *ast.FuncType, fd *ast.FuncDecl, body *ast.BlockSt
 func identOf(e ast.Expr) *ast.Ident {
 	id, _ := ast.Unparen(e).(*ast.Ident)
 	return id
+}
+
+// sharedAppend: zero-annotation sweep for the aliasing that value semantics of slices cannot see (seeded change C10-3):
+// several chunks are carved out of one buffer with two-index slice expressions (b[:0], b[k:], b[i:j] - capacity reaches to
+// the end of b) and one of the chunks is later grown with append, which then writes into the memory of the next chunk
+// instead of reallocating. Field-based and flow-insensitive:
+//
+//   carve        a two-index slice expression of a local slice variable / parameter b that is stored somewhere other than
+//                b itself (variable, field, element, composite-literal field); `b = b[k:]` is a self-reslice
+//   carved base  b with at least one carve and at least two carve-or-self-reslice sites (a site inside a loop counts twice)
+//   chunk        anything a carve of a carved base may have been stored in, closed under assignment, field selection by
+//                field object, element selection and append's result
+//   offender     append(c, ...) for a chunk c
+//
+// One obligation per carved base: `#appendalias:<b>`. Three-index slices (b[i:j:j]) are not carves.
+func (x *Exec) sharedAppend(body *ast.BlockStmt) {
+	info := x.info
+	type siteInfo struct {
+		other, self int
+	}
+	objOfIdent := func(e ast.Expr) types.Object {
+		id := identOf(e)
+		if id == nil {
+			return nil
+		}
+		if o := info.Uses[id]; o != nil {
+			return o
+		}
+		return info.Defs[id]
+	}
+	isLocalSlice := func(o types.Object) bool {
+		v, ok := o.(*types.Var)
+		if !ok || v.IsField() || (v.Pkg() != nil && v.Parent() == v.Pkg().Scope()) {
+			return false
+		}
+		_, ok = v.Type().Underlying().(*types.Slice)
+		return ok
+	}
+	// target object of an assignment's left-hand side: variable, or field object for x.f, or root variable for x[i]
+	var target func(l ast.Expr) types.Object
+	target = func(l ast.Expr) types.Object {
+		switch v := ast.Unparen(l).(type) {
+		case *ast.Ident:
+			return objOfIdent(v)
+		case *ast.SelectorExpr:
+			if s, ok := info.Selections[v]; ok {
+				return s.Obj()
+			}
+			return info.Uses[v.Sel]
+		case *ast.IndexExpr:
+			return target(v.X)
+		case *ast.StarExpr:
+			return target(v.X)
+		}
+		return nil
+	}
+	carveBase := func(e ast.Expr) types.Object {
+		se, ok := ast.Unparen(e).(*ast.SliceExpr)
+		if !ok || se.Slice3 {
+			return nil
+		}
+		o := objOfIdent(se.X)
+		if o == nil || !isLocalSlice(o) {
+			return nil
+		}
+		return o
+	}
+	sites := map[types.Object]*siteInfo{}
+	type store struct {
+		dst types.Object
+		rhs ast.Expr
+	}
+	var stores []store
+	var walk func(n ast.Node, depth int)
+	record := func(dst types.Object, rhs ast.Expr, depth int) {
+		if dst == nil || rhs == nil {
+			return
+		}
+		stores = append(stores, store{dst, rhs})
+		if b := carveBase(rhs); b != nil {
+			si := sites[b]
+			if si == nil {
+				si = &siteInfo{}
+				sites[b] = si
+			}
+			w := 1
+			if depth > 0 {
+				w = 2
+			}
+			if dst == b {
+				si.self += w
+			} else {
+				si.other += w
+			}
+		}
+	}
+	walk = func(n ast.Node, depth int) {
+		ast.Inspect(n, func(m ast.Node) bool {
+			switch s := m.(type) {
+			case *ast.ForStmt:
+				if s != n {
+					walk(s, depth+1)
+					return false
+				}
+			case *ast.RangeStmt:
+				if s != n {
+					walk(s, depth+1)
+					return false
+				}
+			case *ast.AssignStmt:
+				if len(s.Lhs) == len(s.Rhs) {
+					for i := range s.Lhs {
+						record(target(s.Lhs[i]), s.Rhs[i], depth)
+					}
+				}
+			case *ast.ValueSpec:
+				for i, nm := range s.Names {
+					if i < len(s.Values) {
+						record(info.Defs[nm], s.Values[i], depth)
+					}
+				}
+			case *ast.CompositeLit:
+				for _, el := range s.Elts {
+					if kv, ok := el.(*ast.KeyValueExpr); ok {
+						if id, ok := kv.Key.(*ast.Ident); ok {
+							if f, ok := info.Uses[id].(*types.Var); ok && f.IsField() {
+								record(f, kv.Value, depth)
+							}
+						}
+					}
+				}
+			}
+			return true
+		})
+	}
+	walk(body, 0)
+	carved := map[types.Object]bool{}
+	for b, si := range sites {
+		if si.other >= 1 && si.other+si.self >= 2 {
+			carved[b] = true
+		}
+	}
+	if len(carved) == 0 {
+		return
+	}
+	chunkOf := map[types.Object]types.Object{} // holder -> base
+	var mayBeChunk func(e ast.Expr) types.Object
+	mayBeChunk = func(e ast.Expr) types.Object {
+		switch v := ast.Unparen(e).(type) {
+		case *ast.Ident:
+			if o := objOfIdent(v); o != nil {
+				return chunkOf[o]
+			}
+		case *ast.SelectorExpr:
+			if o := target(v); o != nil {
+				return chunkOf[o]
+			}
+		case *ast.IndexExpr:
+			if t := info.TypeOf(v); t != nil {
+				if _, ok := t.Underlying().(*types.Slice); ok {
+					return mayBeChunk(v.X)
+				}
+			}
+		case *ast.SliceExpr:
+			if b := carveBase(v); b != nil && carved[b] {
+				return b
+			}
+			if !v.Slice3 {
+				return mayBeChunk(v.X)
+			}
+		case *ast.CallExpr:
+			if id := identOf(v.Fun); id != nil {
+				if bi, ok := info.Uses[id].(*types.Builtin); ok && bi.Name() == "append" && len(v.Args) > 0 {
+					return mayBeChunk(v.Args[0])
+				}
+			}
+		}
+		return nil
+	}
+	for changed := true; changed; {
+		changed = false
+		for _, st := range stores {
+			b := mayBeChunk(st.rhs)
+			if b == nil || st.dst == b || carved[st.dst] {
+				continue
+			}
+			if _, ok := chunkOf[st.dst]; !ok {
+				chunkOf[st.dst] = b
+				changed = true
+			}
+		}
+	}
+	offenders := map[types.Object][]string{}
+	ast.Inspect(body, func(m ast.Node) bool {
+		c, ok := m.(*ast.CallExpr)
+		if !ok {
+			return true
+		}
+		if id := identOf(c.Fun); id != nil {
+			if bi, ok := info.Uses[id].(*types.Builtin); ok && bi.Name() == "append" && len(c.Args) > 0 {
+				if se, ok := ast.Unparen(c.Args[0]).(*ast.SliceExpr); ok && se.Slice3 {
+					return true
+				}
+				if b := mayBeChunk(c.Args[0]); b != nil {
+					offenders[b] = append(offenders[b], fmt.Sprintf("append(%s, ...) at %s", x.exprText(c.Args[0]), strings.TrimPrefix(x.fset.Position(c.Pos()).String(), repoDir+"/")))
+				}
+			}
+		}
+		return true
+	})
+	var bases []types.Object
+	for b := range carved {
+		bases = append(bases, b)
+	}
+	sort.Slice(bases, func(i, j int) bool { return bases[i].Pos() < bases[j].Pos() })
+	for _, b := range bases {
+		name := b.Name()
+		for old, nw := range x.aliases { // obligation names keep the name recorded in the ledger
+			if nw == name {
+				name = old
+			}
+		}
+		o := &Obligation{Name: x.fullKey + "#appendalias:" + name, Kind: "appendalias", Func: x.fullKey, PC: tTrue, Goal: tTrue, syntactic: true,
+			Pos: strings.TrimPrefix(x.fset.Position(b.Pos()).String(), repoDir+"/"),
+			Text: fmt.Sprintf("chunks carved out of %s with two-index slice expressions are never grown with append (their capacity reaches into the next chunk)", b.Name())}
+		if offs := offenders[b]; len(offs) > 0 {
+			o.Goal = tFalse
+			o.Text = fmt.Sprintf("several chunks are carved out of %s with two-index slice expressions (capacity reaches to the end of %s) and a chunk is grown in place: %s - the append overwrites the next chunk instead of reallocating; use a three-index slice %s[i:j:j]", b.Name(), b.Name(), strings.Join(offs, "; "), b.Name())
+		}
+		x.obls = append(x.obls, o)
+	}
 }
